@@ -222,39 +222,56 @@ func OtherID(code *jen.Statement) *JenID {
 
 // TypeOf creates a Type.
 func TypeOf(t types.Type) *Type {
+	return typeOf(t, map[*types.Named]*Type{})
+}
+
+// typeOf creates a Type. A named type that refers to itself without a struct in
+// between (type T []T) is resolved to the Type that is being built, instead of
+// recursing forever.
+func typeOf(t types.Type, building map[*types.Named]*Type) *Type {
 	t = types.Unalias(t)
+	named, isNamed := t.(*types.Named)
+	if isNamed {
+		if rt, ok := building[named]; ok {
+			return rt
+		}
+	}
 	rt := &Type{}
 	rt.T = t
 	rt.String = t.String()
-	applyTo(rt, t)
+	if isNamed {
+		building[named] = rt
+		defer delete(building, named)
+	}
+	applyTo(rt, t, building)
 	return rt
 }
 
-func applyTo(rt *Type, t types.Type) {
+func applyTo(rt *Type, t types.Type, building map[*types.Named]*Type) {
 	switch value := t.(type) {
 	case *types.Pointer:
 		rt.Pointer = true
 		rt.PointerType = value
-		rt.PointerInner = TypeOf(value.Elem())
+		rt.PointerInner = typeOf(value.Elem(), building)
 	case *types.Basic:
 		rt.Basic = true
 		rt.BasicType = value
 	case *types.Map:
 		rt.Map = true
 		rt.MapType = value
-		rt.MapKey = TypeOf(value.Key())
-		rt.MapValue = TypeOf(value.Elem())
+		rt.MapKey = typeOf(value.Key(), building)
+		rt.MapValue = typeOf(value.Elem(), building)
 	case *types.Slice:
 		rt.List = true
-		rt.ListInner = TypeOf(value.Elem())
+		rt.ListInner = typeOf(value.Elem(), building)
 	case *types.Array:
 		rt.List = true
 		rt.ListFixed = true
-		rt.ListInner = TypeOf(value.Elem())
+		rt.ListInner = typeOf(value.Elem(), building)
 	case *types.Named:
 		rt.Named = true
 		rt.NamedType = value
-		applyTo(rt, value.Underlying())
+		applyTo(rt, value.Underlying(), building)
 	case *types.Struct:
 		rt.Struct = true
 		rt.StructType = value
